@@ -15,7 +15,24 @@ structure Site where
   args : List String
   lhs : List String
   ctx : List String
+  /-- writer functions (and the sink API itself, if this call is one) reachable from the callees of
+  this call in the VTA call graph; `[]` = nothing below this call writes a file, starts a process
+  or talks to the device -/
+  writers : List String
   deriving DecidableEq, Repr
+
+/-- One call of a sink API (file creation / write / rename / removal, process start, pty or HTTP
+dialogue, flock) in a module function reachable from `main`. -/
+structure SinkSite where
+  fn : String      -- enclosing module function
+  owner : String   -- package or receiver type of the sink
+  name : String
+  arg0 : String    -- source text of the first argument
+  deriving DecidableEq, Repr
+
+/-- A sink site that only prints to the terminal or into a local `strings.Builder`. -/
+def SinkSite.quiet (s : SinkSite) : Bool :=
+  s.owner = "fmt" && (s.arg0 = "os.Stderr" || s.arg0 = "os.Stdout" || s.arg0 = "&collect")
 
 inductive Step
   | readConfig            -- program.LoadConfig (reads ~/.netspoc-approve …)
@@ -34,6 +51,7 @@ inductive Step
   | status                -- status.SetCompare / status.SetApprove
   | printErr              -- abort(...): "Error: Approve in progress for …" on stderr
   | exit (code : Nat)
+  | mayExit (code : Nat)  -- a conditional early `return` (usage error, -h, -v, unknown device, final status)
   | unknown (fn : String) -- anything the abstraction does not know
   deriving DecidableEq, Repr
 
@@ -45,51 +63,54 @@ def Step.protected : Step → Bool
 
 /-- Steps whose only effect on the process record is to advance the program. -/
 def Step.plain : Step → Bool
-  | .flock | .closeLock | .deferClose | .exit _ => false
+  | .flock | .closeLock | .deferClose | .exit _ | .mayExit _ => false
   | _ => true
 
-/-- Calls (and pseudo calls) that write nothing a second run could observe and do not touch the
-device: flag parsing, string and path functions, reads, messages on stdout/stderr. -/
-def harmless : List String := [
-  "pflag.NewFlagSet", "fs.BoolP", "fs.StringP", "fs.Parse", "fs.Usage", "fs.Args", "fs.Changed", "fs.NFlag",
-  "fs.PrintDefaults", "fs.FlagUsages", "len", "string", "int", "path.Join", "path.Base", "filepath.Base",
-  "filepath.EvalSymlinks", "fileExists", "strings.Join", "strings.Split", "strings.HasPrefix",
-  "fmt.Printf", "fmt.Println", "fmt.Errorf", "os.ReadFile", "abort", "=", ":=", "+=", "fallthrough"]
+/-- exit code of a `return`: a literal, or `abort(…)` which returns 1 (`abort_returns_1`); any other
+computed one (the session's result) counts as 0 -/
+def returnCode (args : List String) : Nat :=
+  if args = ["1"] then 1
+  else match args with
+    | [a] => if a.toList.take 6 = ['a', 'b', 'o', 'r', 't', '('] then 1 else 0
+    | _ => 0
 
-/-- literal exit code of a top-level `return`; a computed one (the session's result) counts as 0 -/
-def returnCode (args : List String) : Nat := if args = ["1"] then 1 else 0
-
-/-- Abstraction of one site of a `Main` function (context already reduced to the selected path).
-`none` = harmless, dropped. -/
+/-- Abstraction of one site of a `Main` function.  `none` = dropped, which is allowed ONLY for a site
+from which the call graph reaches no writer function (`writers = []`), for `return`s inside closures
+and for the pseudo sites (assignments, `fallthrough`; they have no callee, hence no writers).
+Names are used only to tell WHICH effect a call is; a call that reaches a writer and has no name
+here becomes `unknown`, which no lock discipline accepts. -/
 def classify (s : Site) : Option Step :=
-  if s.ctx.contains "funclit" then
-    -- body of a closure (the usage printers): must be harmless
-    if harmless.contains s.fn || (s.fn = "fmt.Fprintf" && s.args.head? = some "os.Stderr") || s.fn = "return"
-    then none else some (.unknown s.fn)
-  else if s.fn = "return" then
-    if s.ctx.getLast? = some "if err != nil" then some .errReturn
+  if s.fn = "return" then
+    if s.ctx.contains "funclit" then none
+    else if s.ctx.getLast? = some "if err != nil" then some .errReturn
     else if s.ctx = [] then some (.exit (returnCode s.args))
-    else none   -- conditional early return (usage error, -v, unknown device): the process just ends
-  else if s.fn = "program.LoadConfig" then some .readConfig
-  else if s.fn = "device.SetLock" then some .setLock
+    else some (.mayExit (returnCode s.args))   -- conditional early return: a path of its own
+  else if s.ctx.contains "funclit" || s.ctx.contains "go" then
+    -- body of a closure / a goroutine: may run at another time, so it must reach no writer
+    (if s.writers = [] then none else some (.unknown s.fn))
   else if s.fn = "lockFH.Close" then
     (if s.ctx.getLast? = some "defer" then some .deferClose else some .closeLock)
+  else if s.ctx.contains "defer" then
+    -- runs when Main returns; deferred calls run in reverse order, i.e. possibly after the Close
+    (if s.writers = [] then none else some (.unknown s.fn))
+  else if s.fn = "device.SetLock" then
+    (if s.writers = ["device.SetLock"] then some .setLock else some (.unknown s.fn))
+  else if s.fn = "program.LoadConfig" then
+    (if s.writers = [] then some .readConfig else some (.unknown s.fn))
   else if s.fn = "openHistoryLog" then some .histOpen
   else if s.fn = "logHistory" then some (.hist (s.args.getD 1 "?"))
   else if s.fn = "device.ApproveOrCompare" then some .session
   else if s.fn = "status.SetCompare" || s.fn = "status.SetApprove" then some .status
-  else if s.fn = "fmt.Fprintf" then
-    (if s.args.head? = some "os.Stderr" then none else some (.unknown s.fn))
-  else if harmless.contains s.fn then none
+  else if s.writers = [] then none
   else some (.unknown s.fn)
 
-/-- Keep the sites of one `case` of one `switch` (others are different modes of the program) and
-drop the two context entries. -/
-def selectCase (sw cs : String) (sites : List Site) : List Site :=
+/-- Drop the sites of one `case` of one `switch` (a different mode of the program, outside the
+property) and forget the switch and the label `keep` in the context of the others; the remaining
+cases stay as conditional paths. -/
+def dropMode (sw drop keep : String) (sites : List Site) : List Site :=
   sites.filterMap fun s =>
-    if s.ctx.contains sw then
-      (if s.ctx.contains cs then some { s with ctx := s.ctx.filter (fun c => c != sw && c != cs) } else none)
-    else some s
+    if s.ctx.contains sw && s.ctx.contains drop then none
+    else some { s with ctx := s.ctx.filter (fun c => c != sw && c != keep) }
 
 def stepsOf (sites : List Site) : List Step := sites.filterMap classify
 
@@ -100,5 +121,46 @@ def expand : List Step → List Step
   | .setLock :: rest => .mkdirLock :: .openLock :: .flock :: expand rest
   | .session :: rest => .logOpen :: .devBegin :: .devTalk :: .devEnd :: expand rest
   | s :: rest => s :: expand rest
+
+/-! ## The boundary of the module (round 3) -/
+
+/-- packages and receiver types all of whose functions neither write nor talk -/
+def harmlessOwners : List String := [
+  "strings", "slices", "bytes", "strconv", "maps", "cmp", "sort", "regexp", "path", "path/filepath", "net/netip",
+  "time", "net/url", "errors", "math/bits", "encoding/json", "encoding/xml", "github.com/pkg/diff/myers",
+  "net/http/cookiejar", "*regexp.Regexp", "*strings.Builder", "net/netip.Addr", "net/netip.Prefix", "time.Time",
+  "net/url.Values", "*net/url.URL", "net.IPMask", "net/http.Header", "*encoding/json.Decoder",
+  "*github.com/spf13/pflag.FlagSet", "*slices.xorshift", "*github.com/pkg/diff/edit.Range",
+  "*github.com/pkg/diff/edit.Script"]
+
+/-- single harmless functions: formatting, terminal output, reads, constructors, process exit -/
+def harmlessFns : List (String × String) := [
+  ("fmt", "Errorf"), ("fmt", "Sprintf"), ("fmt", "Sprint"), ("fmt", "Print"), ("fmt", "Printf"), ("fmt", "Println"),
+  ("os", "Getenv"), ("os", "ReadFile"), ("os", "Open"), ("os", "Stat"), ("os", "UserHomeDir"), ("os", "Exit"),
+  ("os/exec", "Command"), ("net/http", "NewRequest"), ("github.com/spf13/pflag", "NewFlagSet"),
+  ("github.com/tailscale/goexpect", "PartialMatch"), ("golang.org/x/term", "ReadPassword"),
+  ("*os.File", "Fd"), ("*os.File", "Name"), ("*os.File", "Close"), ("io", "ReadAll")]
+
+/-- `Error()` of any error type and `Close()` of any reader are harmless (closing the LOCK file is
+seen at the level of `Main`: `lockFH.Close`). -/
+def harmlessExt (c : String × String) : Bool :=
+  c.2 = "Error" || c.2 = "Close" || harmlessOwners.contains c.1 || harmlessFns.contains c
+
+/-- What each writer function writes. -/
+def writerCategory : List (String × String) := [
+  ("device.SetLock", "lock file"),
+  ("doapprove.openHistoryLog", "history"), ("doapprove.logHistory", "history"),
+  ("status.write", "status"),
+  ("errlog.Info", "run log"), ("errlog.PrintWithMarker", "run log"),
+  ("errlog.CreateWithPath", "log file creation"), ("errlog.MoveLogFile", "log rotation"),
+  ("errlog.DoLog", "session log .change"), ("(*console.Conn).logString", "session log .login/.config/.change"),
+  ("(*device.state).compare", "session log .cmp"),
+  ("console.GetSSHConn", "device: ssh"), ("(*console.Conn).Send", "device: ssh"), ("(*console.Conn).Close", "device: ssh"),
+  ("(*console.Conn).TryPrompt", "device: ssh"), ("(*console.Conn).expectLog", "device: ssh"),
+  ("(*nsx.State).LoadDevice$1", "device: https"), ("(*nsx.State).sendRequest", "device: https"),
+  ("(*panos.State).httpGet", "device: https"),
+  ("(*linux.State).putScp", "device: scp"), ("linux.createTemp", "temp file for scp"),
+  ("(*linux.State).writeStartup", "temp file for scp"), ("(*linux.State).writeStartupIPTables", "temp file for scp"),
+  ("(*linux.State).writeStartupRouting", "temp file for scp")]
 
 end NA.LockSkel
